@@ -8,6 +8,7 @@ INVARIANT C17_OpensCreated
 INVARIANT C17_Identity
 INVARIANT C17_CachedNotOpened
 INVARIANT C17_CacheSame
+INVARIANT C17_CacheKept
 INVARIANT C18_CleanRepos
 INVARIANT C18_RepairedReload
 INVARIANT C27_Reject
